@@ -42,6 +42,7 @@ structure Facts where
   runningChecksUID : Bool       -- runningAndUidMatch compares the stored UID with the pod's
   bindEnqueuesOnlyOnNotFound : Bool := true  -- Bind queues a release event only when the Binding call answered NotFound
   finishedChecksPhaseOnly : Bool := true  -- finished(pod) = phase Succeeded / Failed, nothing else (not: being deleted)
+  keyOwnedSkipsEmptyUid : Bool := true  -- keyOwnedByRunningPod ignores records without a stored uid (bound to no pod)
 deriving DecidableEq, Repr
 
 /-- the facts as regenerated from the current source tree -/
@@ -56,10 +57,11 @@ def facts : Facts :=
     wholeKeyCheck := Generated.Plugin.resyncAndReleaseCheckWholeKey
     runningChecksUID := Generated.Plugin.runningAndUidMatchChecksUID
     bindEnqueuesOnlyOnNotFound := Generated.Plugin.bindEnqueuesReleaseOnlyOnNotFound
-    finishedChecksPhaseOnly := Generated.Plugin.finishedChecksPhaseOnly }
+    finishedChecksPhaseOnly := Generated.Plugin.finishedChecksPhaseOnly
+    keyOwnedSkipsEmptyUid := Generated.Plugin.keyOwnedSkipsEmptyUid }
 
 /-- the shape the proofs are about -/
-def Facts.good : Facts := ⟨true, true, true, true, true, true, true, true, true, true, true⟩
+def Facts.good : Facts := ⟨true, true, true, true, true, true, true, true, true, true, true, true⟩
 
 /-! ## Subnets and pools -/
 
@@ -669,7 +671,9 @@ def podRunning (F : Facts) (s : State) (pod ns : String) (uid : Uid) : State × 
     if c.2 then (c.1, true) else (c.1, runningMatch F uid (c.1.pods.get (ns, pod)))
 
 /-- `keyOwnedByRunningPod(keyObj, podUid)`: some other record of the key (stored uid differs from `uid`) belongs to a
-    running pod -/
+    running pod.  A record WITHOUT a stored uid is reserved for the key but bound to no pod: it is skipped (with an
+    empty uid `podRunning` would not compare uids at all, so any existing same-named pod would count as its owner -
+    the variant without the skip is the model with `keyOwnedSkipsEmptyUid` false). -/
 def keyOwnedLoop (F : Facts) (k : Key) (uid : Nat) : List IP → State → State × Bool
   | [], s => (s, false)
   | ip :: t, s =>
@@ -678,6 +682,7 @@ def keyOwnedLoop (F : Facts) (k : Key) (uid : Nat) : List IP → State → State
     | some r =>
       if r.key ≠ k then keyOwnedLoop F k uid t s
       else if r.uid = uid then keyOwnedLoop F k uid t s
+      else if F.keyOwnedSkipsEmptyUid && r.uid == 0 then keyOwnedLoop F k uid t s
       else if (podRunning F s k.pod k.ns r.uid).2 then ((podRunning F s k.pod k.ns r.uid).1, true)
       else keyOwnedLoop F k uid t (podRunning F s k.pod k.ns r.uid).1
 
